@@ -25,3 +25,32 @@ class List:
 class Holder:
     class int:      # noqa: A001, N801   a nested class named like a builtin
         pass
+
+
+# named like the typing constructs that MonkeyType's rewriters dispatch on
+class Union:
+    pass
+
+
+class Set:
+    pass
+
+
+class Dict:
+    pass
+
+
+class Generator:
+    pass
+
+
+class Iterator:
+    pass
+
+
+class TypedDict:
+    pass
+
+
+class Tuple:
+    pass
